@@ -192,6 +192,51 @@ def job_hpack(job):
     return acc.result()
 
 
+NUMERIC_VALUES = [b"", b"0", b"00", b"5", b"-1", b"+5", b" 5", b"5 ", b"1_0", b"1e3", b"0x10", b"5,5", b"5\x00", b"\xb2",
+                  "\u0665".encode("utf-8"), "\uff15".encode("utf-8"), b"0" * 4301, b"9" * 5000, b"0" * 5000 + b"5",
+                  b"18446744073709551616"]
+STATUS_VALUES = [b"", b"abc", b"99", b"1000", b"2" * 5000, "\u0662\u0660\u0660".encode("utf-8"), b"\xb200", b"\xff", b"20\x00",
+                 b"+200", b" 200", b"1_0_0"]
+METHOD_VALUES = [b"", b"HEAD", b"CONNECT", b"\xff", b"get", b"G" * 5000]
+
+
+def value_frames(client, state):
+    """Well-formed frames whose header *values* are the unusual thing: fields the library parses (content-length as an
+    integer, :status to classify the block, :method for HEAD / CONNECT) with empty, signed, padded, non-ASCII-digit,
+    very long (beyond the interpreter's integer-conversion limit) and non-text values, in the positions where they are read."""
+    out = []
+    if client:
+        if state not in ("open", "hc-local", "two-streams", "reserved-remote"):
+            return out
+        sid = 2 if state == "reserved-remote" else 1
+        for v in NUMERIC_VALUES:
+            out.append([wire.headers(sid, corpus.sb(H.RESP + [(b"content-length", v)]))])
+            out.append([wire.headers(sid, corpus.sb(H.RESP + [(b"content-length", v)]), es=True)])
+            out.append([wire.headers(sid, corpus.sb(H.RESP + [(b"content-length", b"1"), (b"content-length", v)]))])
+        for v in STATUS_VALUES:
+            out.append([wire.headers(sid, corpus.sb([(b":status", v)]))])
+            out.append([wire.headers(sid, corpus.sb([(b":status", v), (b"content-length", b"3")]), es=True)])
+        if state == "open":
+            for v in NUMERIC_VALUES:
+                out.append([wire.push_promise(1, 2, corpus.sb(H.REQ + [(b"content-length", v)]))])
+            for v in METHOD_VALUES:
+                out.append([wire.push_promise(1, 2, corpus.sb([(b":method", v)] + H.REQ[1:]))])
+    else:
+        if state not in ("handshaken", "open", "two-streams"):
+            return out
+        sid = {"handshaken": 1, "open": 3, "two-streams": 5}[state]
+        for v in NUMERIC_VALUES:
+            out.append([wire.headers(sid, corpus.sb(H.REQ_POST + [(b"content-length", v)]))])
+            out.append([wire.headers(sid, corpus.sb(H.REQ_POST + [(b"content-length", v)]), es=True)])
+            out.append([wire.headers(sid, corpus.sb(H.REQ_POST + [(b"content-length", v), (b"content-length", v)]))])
+        for v in METHOD_VALUES:
+            out.append([wire.headers(sid, corpus.sb([(b":method", v)] + H.REQ[1:]), es=True)])
+        if state == "open":
+            for v in NUMERIC_VALUES:   # in trailers the field is not read, whatever it says
+                out.append([wire.headers(1, corpus.sb([(b"content-length", v)]), es=True)])
+    return out
+
+
 def job_fields(job):
     """Field-level grids inside otherwise well-formed frames (the byte-pattern fills of the structural family only ever
     produce a handful of field values): every SETTINGS identifier 0..40 and a few beyond x boundary values, alone and
@@ -216,7 +261,11 @@ def job_fields(job):
         for sid in (0, 1, 3):
             for inc in (0, 1, 2 ** 31 - 1 - 65535, 2 ** 31 - 65535, 2 ** 31 - 1):
                 frames.append([wire.raw(wire.WINDOW_UPDATE, 0, sid, _st.pack(">I", inc))])
-        for frs in frames:
+        # GOAWAY debug data is opaque: binary, not UTF-8, long
+        for dbg in (b"\xff\xfe", b"\xc3", b"\x00" * 16000, "\u00e9".encode("utf-8")):
+            frames.append([wire.goaway(1, 0, dbg)])
+            frames.append([wire.goaway(0, 2, dbg)])
+        for frs in frames + (value_frames(client, state)):
             data = wire.ser(frs)
             conn = pickle.loads(blob)
             v, _ = feed(conn, [data])
